@@ -255,7 +255,7 @@ def conform_group(c, runs, idxs, tag, max_iter):
     return len(remaining), rejected
 
 
-def conform(c, runs, tag, max_iter=4):
+def conform(c, runs, tag, max_iter=2):
     """RoutingTrace: the recorded runs must be behaviours of the design. Returns (accepted_runs, rejected[(run, line)]).
     Runs are validated in parallel groups (one single-worker TLC each)."""
     from concurrent.futures import ThreadPoolExecutor
@@ -312,8 +312,36 @@ def classify(run, li, clause, s, tid):
     return sig
 
 
+def selftest(c):
+    """Binding demonstration (DESIGN 2.4): a recorded real trace is accepted by the trace spec; the same trace with one logged
+    field corrupted, and with one event removed, is rejected."""
+    import copy
+    c.trace_timeout = 120
+    scheds, _ = generate(c, "sim_c01.cfg", "bfs", 1, 2, [], 60)
+    runs = run_schedules(c, scheds, "st")
+    runs = [r for r in runs if any(e["ev"] == "SrcAck" for e in r) and any(e["ev"] == "TgtMsg" and e["pids"] for e in r)][:20]
+    if not runs:
+        raise Broken("selftest: no suitable runs")
+    n0, rej0 = conform_group(c, runs, list(range(len(runs))), "st-orig", 1)
+    corrupted = copy.deepcopy(runs)
+    for e in corrupted[0]:
+        if e["ev"] == "SrcAck":
+            e["a"] += 1
+            break
+    n1, rej1 = conform_group(c, corrupted, list(range(len(corrupted))), "st-corrupt", 1)
+    removed = copy.deepcopy(runs)
+    k = next(i for i, e in enumerate(removed[0]) if e["ev"] == "TgtMsg" and e["pids"])
+    del removed[0][k]
+    n2, rej2 = conform_group(c, removed, list(range(len(removed))), "st-removed", 1)
+    ok = (not rej0) and bool(rej1) and bool(rej2)
+    print("SELFTEST original accepted=%s corrupted-field rejected=%s removed-event rejected=%s" % (not rej0, bool(rej1), bool(rej2)))
+    return 0 if ok else 2
+
+
 def run(c, a):
-    c.trace_timeout = 150 if c.tier == "quick" else 1200
+    if getattr(a, "selftest", False):
+        return selftest(c)
+    c.trace_timeout = 100 if c.tier == "quick" else 900
     prof = PROFILES.get((c.pid, c.tier))
     if prof is None:
         raise Broken("no profile for %s/%s" % (c.pid, c.tier))
